@@ -538,7 +538,7 @@ func checkConfinement(p *core.Prog, r *core.Report) {
 	reach := core.Reachable(cg, rootFns...)
 	type tracked struct {
 		rel, typ, field string
-		allow          map[string]string
+		allow           map[string]string
 	}
 	fields := []tracked{
 		{pkgStage, "Stages", "segmentStates", nil},
